@@ -87,11 +87,13 @@ func TablesDropped() int                       { panic("intrinsic") }
 func DBClosed() int                            { panic("intrinsic") }
 func FieldTag(sample any, field, key string) string { panic("intrinsic") }
 func DurationMs(name string, lo, hi int) time.Duration { panic("intrinsic") }
+func JwtClaimsNext() any                       { panic("intrinsic") }
 func JwtOutcome() string                       { panic("intrinsic") }
 func CancelRequest()                           { panic("intrinsic") }
 func HttpErrors() int                          { panic("intrinsic") }
 func HttpErrorCode(i int) int                  { panic("intrinsic") }
 func Lifecycle() string                        { panic("intrinsic") }
+func SameDatum(a, b any) bool                  { panic("intrinsic") }
 func IgnoreGo()                                { panic("intrinsic") }
 func SchedulerCapacity(k int)                  { panic("intrinsic") }
 func SchedulerRan()                            { panic("intrinsic") }
